@@ -3,6 +3,7 @@
    decimal-rounding core of the property (C20_core) for ALL rationals. *)
 From XV Require Import Prelude DecFmt.
 From Coq Require Import QArith Qabs Qpower Lqa.
+Delimit Scope string_scope with string.
 Open Scope Z_scope.
 
 (* ------------------------------------------------------------------ powers of ten in Q *)
@@ -715,10 +716,17 @@ Proof.
     nra.
 Qed.
 
-(* the stated domain, on magnitudes: err is a normal binary64 below the point where the function
-   overflows (see full_refuted_overflow), |x| <= 1e300, and x = 0 or 1e-12 <= err/|x| <= 1e12 *)
+(* the largest finite binary64 *)
+Definition fmax : Q := inject_Z ((2 ^ 53 - 1) * 2 ^ 971).
+Lemma fmax_small : (fmax <= 2 * q10 308)%Q.
+Proof. vm_compute. discriminate. Qed.
+Lemma fmax_c6 : (fmax < cst 6 * q10 302)%Q.
+Proof. vm_compute. reflexivity. Qed.
+
+(* the stated domain, on magnitudes: err is any normal binary64 (up to the largest finite one),
+   |x| <= 1e300, and x = 0 or 1e-12 <= err/|x| <= 1e12 *)
 Definition in_range (x err : Q) : Prop :=
-  (tiny <= err)%Q /\ (err < cst 6 * q10 301)%Q /\ (x <= q10 300)%Q /\
+  (tiny <= err)%Q /\ (err <= fmax)%Q /\ (x <= q10 300)%Q /\
   (x == 0 \/ (q10 (-12) * x <= err /\ err <= q10 12 * x))%Q.
 
 Section Float.
@@ -792,11 +800,11 @@ Section Float.
     pose proof (err_window (Mg err) Hme) as [W1 W2].
     set (me := Mg err) in *. set (mx := Mg x) in *.
     set (ee := dexp 6 me) in *.
-    assert (Hk : k = Z.max (dexp 6 mx) (ee + 1)) by reflexivity.
+    assert (Hk : k = Z.min (Z.max (dexp 6 mx) (ee + 1)) 308) by reflexivity.
     set (ex := dexp 6 mx) in *.
     rewrite cst6_val in W1, W2.
     split.
-    - (* hidden: no scaling *)
+    - (* hidden: no scaling; the cap is not active *)
       intros Hh. apply hide_cases in Hh.
       assert (Hee : ee + 1 <= 1) by lia.
       apply dexp1_small; [assumption|].
@@ -807,8 +815,8 @@ Section Float.
       assert (Hee_lo : -308 <= ee).
       { apply dexp_ge; [lia|assumption|]. pose proof tiny_above_c6.
         change (-308 - 6 - 1) with (-315). lra. }
-      assert (Hee_hi : ee <= 307).
-      { apply dexp_le; [lia|assumption|]. change (307 - 6) with 301. assumption. }
+      assert (Hee_hi : ee <= 308).
+      { apply dexp_le; [lia|assumption|]. change (308 - 6) with 302. pose proof fmax_c6. lra. }
       assert (Hex_hi : ex <= 307).
       { destruct (Qeq_dec mx 0) as [Z0|NZ].
         - unfold ex. rewrite dexp_zero by assumption. lia.
@@ -818,30 +826,62 @@ Section Float.
       destruct (Hpow k ltac:(lia)) as (p & Hp & Sp & Ap).
       exists p. split; [assumption|].
       set (K := q10 k) in *. assert (HK : (0 < K)%Q) by apply q10_pos.
-      (* err is below 10^k and not far below *)
-      assert (M1 : (q10 (ee + 1) <= K)%Q) by (apply q10_mono; lia).
       pose proof (q10_pos (ee + 1)) as Q1.
-      assert (Eup : (me <= 1 * K)%Q) by nra.
-      assert (Elo : ((1 # 10000000000000) * K <= me)%Q).
-      { destruct (Z.eq_dec k (ee + 1)) as [Ek|Nk].
-        - assert (EK : (K == q10 (ee + 1))%Q) by (unfold K; rewrite Ek; reflexivity).
-          rewrite EK. nra.
-        - assert (Ekx : k = ex) by lia.
-          assert (NZ : ~ (mx == 0)%Q).
-          { intros Z0. unfold ex in Ekx. rewrite dexp_zero in Ekx by assumption. lia. }
-          assert (Px : (0 < mx)%Q) by lra.
-          pose proof (err_window mx Px) as [X1 _]. fold ex in X1. rewrite cst6_val in X1.
-          assert (EK : (q10 (ex + 1) == 10 * K)%Q) by (unfold K; rewrite Ekx; apply q10_succ).
-          rewrite EK in X1.
-          destruct Rratio as [Z0|[R1 _]]; [contradiction|].
-          change (q10 (-12)) with (1 # 1000000000000)%Q in R1. nra. }
+      (* where err and x sit relative to 10^k *)
+      assert (Win : (me <= 2 * K)%Q /\ ((1 # 10000000000000) * K <= me)%Q
+                    /\ ((0 < mx)%Q -> (mx <= 10 * K)%Q /\ ((1 # 100000000000000) * K <= mx)%Q)).
+      { destruct (Z_le_gt_dec (Z.max ex (ee + 1)) 308) as [Hc|Hc].
+        - (* the cap is not active: k = max(ex, ee + 1) *)
+          assert (Hk' : k = Z.max ex (ee + 1)) by lia.
+          assert (M1 : (q10 (ee + 1) <= K)%Q) by (apply q10_mono; lia).
+          split; [nra|]. split.
+          + destruct (Z.eq_dec k (ee + 1)) as [Ek|Nk].
+            * assert (EK : (K == q10 (ee + 1))%Q) by (unfold K; rewrite Ek; reflexivity).
+              rewrite EK. nra.
+            * assert (Ekx : k = ex) by lia.
+              assert (NZ : ~ (mx == 0)%Q).
+              { intros Z0. unfold ex in Ekx. rewrite dexp_zero in Ekx by assumption. lia. }
+              assert (Px : (0 < mx)%Q) by lra.
+              pose proof (err_window mx Px) as [X1 _]. fold ex in X1. rewrite cst6_val in X1.
+              assert (EK : (q10 (ex + 1) == 10 * K)%Q) by (unfold K; rewrite Ekx; apply q10_succ).
+              rewrite EK in X1.
+              destruct Rratio as [Z0|[R1 _]]; [contradiction|].
+              change (q10 (-12)) with (1 # 1000000000000)%Q in R1. nra.
+          + intros Px.
+            pose proof (err_window mx Px) as [X1 X2]. fold ex in X1, X2. rewrite cst6_val in X1, X2.
+            assert (M2 : (q10 (ex + 1) <= 10 * K)%Q).
+            { unfold K. rewrite <- q10_succ. apply q10_mono. lia. }
+            pose proof (q10_pos (ex + 1)) as Q2.
+            split; [nra|].
+            destruct (Z.eq_dec k ex) as [Ek|Nk].
+            * assert (EK : (q10 (ex + 1) == 10 * K)%Q) by (unfold K; rewrite Ek; apply q10_succ).
+              rewrite EK in X1. nra.
+            * assert (Eke : k = ee + 1) by lia.
+              assert (EK : (K == q10 (ee + 1))%Q) by (unfold K; rewrite Eke; reflexivity).
+              destruct Rratio as [Z0|[_ R2]]; [lra|].
+              change (q10 12) with 1000000000000%Q in R2. rewrite EK. nra.
+        - (* the cap is active: k = 308 and err is within a factor ten of the largest float *)
+          assert (Hk' : k = 308) by lia.
+          assert (Hee : ee = 308) by lia.
+          assert (EK : (q10 (ee + 1) == 10 * K)%Q).
+          { unfold K. rewrite Hk', Hee. reflexivity. }
+          rewrite EK in W1.
+          pose proof fmax_small as Fs.
+          assert (EK8 : (K == q10 308)%Q) by (unfold K; rewrite Hk'; reflexivity).
+          split; [rewrite EK8; lra|]. split; [nra|].
+          intros Px.
+          assert (M3 : (q10 300 <= K)%Q) by (unfold K; apply q10_mono; lia).
+          split; [lra|].
+          destruct Rratio as [Z0|[_ R2]]; [lra|].
+          change (q10 12) with 1000000000000%Q in R2. nra. }
+      destruct Win as (Eup & Elo & Xwin).
       (* the division of err *)
       assert (Pp : (0 < Mg p)%Q).
       { apply Qabs_Qle_condition in Ap. unfold eps53 in Ap. destruct Ap. nra. }
       set (re := (me / Mg p)%Q).
       assert (Hre : (re * Mg p == me)%Q) by (unfold re; field; lra).
       clearbody re.
-      destruct (quot_bounds me K (Mg p) re (1 # 10000000000000) 1 HK Ap Hre ltac:(lra) Elo Eup)
+      destruct (quot_bounds me K (Mg p) re (1 # 10000000000000) 2 HK Ap Hre ltac:(lra) Elo Eup)
         as (_ & Re1 & Re2).
       destruct (Hdiv err p re Pp Hre) as (De1 & _ & De3).
       specialize (De3 ltac:(lra) ltac:(lra)).
@@ -863,19 +903,7 @@ Section Float.
       + specialize (Dx2 Z0). fold mx. rewrite Dx2, Z0.
         apply Qabs_Qle_condition. split; lra.
       + assert (Px : (0 < mx)%Q) by lra.
-        pose proof (err_window mx Px) as [X1 X2]. fold ex in X1, X2. rewrite cst6_val in X1, X2.
-        assert (M2 : (q10 (ex + 1) <= 10 * K)%Q).
-        { unfold K. rewrite <- q10_succ. apply q10_mono. lia. }
-        pose proof (q10_pos (ex + 1)) as Q2.
-        assert (Xup : (mx <= 10 * K)%Q) by nra.
-        assert (Xlo : ((1 # 100000000000000) * K <= mx)%Q).
-        { destruct (Z.eq_dec k ex) as [Ek|Nk].
-          - assert (EK : (q10 (ex + 1) == 10 * K)%Q) by (unfold K; rewrite Ek; apply q10_succ).
-            rewrite EK in X1. nra.
-          - assert (Eke : k = ee + 1) by lia.
-            assert (EK : (K == q10 (ee + 1))%Q) by (unfold K; rewrite Eke; reflexivity).
-            destruct Rratio as [Z0|[_ R2]]; [contradiction|].
-            change (q10 12) with 1000000000000%Q in R2. rewrite EK. nra. }
+        destruct (Xwin Px) as [Xup Xlo].
         destruct (quot_bounds mx K (Mg p) rx (1 # 100000000000000) 10 HK Ap Hrx ltac:(lra) Xlo Xup)
           as (_ & Rx1 & Rx2).
         specialize (Dx3 ltac:(lra) ltac:(lra)).
@@ -896,7 +924,7 @@ Section Float.
     destruct (branches_thm x err Hs Hr) as [Bh Bs].
     pose proof (Hval x) as Hmx.
     assert (Hme : (0 < Mg err)%Q) by (destruct Hr as (Rt & _); pose proof tiny_pos; lra).
-    unfold format. set (k := x_exponent_of ops x err) in *.
+    unfold format, format_with. set (k := x_exponent_of ops x err) in *.
     destruct (hide_of ops k x err) eqn:Hh.
     - specialize (Bh eq_refl).
       destruct (core_thm (fval ops x) (fval ops err) None (Hval x) Hme Hs Bh)
@@ -1034,13 +1062,15 @@ Qed.
 Definition full_thm_table := full_thm ops_table (opsq_val pow10_q) (opsq_div pow10_q) table_pow.
 Definition full_thm_exact := full_thm ops_exact (opsq_val _) (opsq_div _) exact_pow.
 
-(* in the stated domain but outside in_range: 10**309 cannot be converted to a float *)
-Lemma full_refuted_overflow_lemma :
+(* why the cap is needed: without it (format_old) the binary64 nearest 1e308 gives exponent 309
+   and 10**309 cannot be converted to a float; with it the same input is formatted *)
+Lemma overflow_refuted_old_lemma :
   exists x err : Q, (x == 0)%Q /\ (0 < err)%Q /\ pow10_q 308 = Ok err
-                    /\ format ops_table x err = Err E_Overflow.
+                    /\ format_old ops_table x err = Err E_Overflow
+                    /\ format ops_table x err = Ok "0.0(10)e+308"%string.
 Proof.
   exists 0%Q. destruct (pow10_q 308) as [err|] eqn:E; [|vm_compute in E; discriminate].
   exists err. vm_compute in E. injection E as <-.
   split; [reflexivity|]. split; [reflexivity|]. split; [reflexivity|].
-  vm_compute. reflexivity.
+  split; vm_compute; reflexivity.
 Qed.
